@@ -45,6 +45,8 @@ func (fr *Frame) callWith(st *State, c *ssa.CallCommon, args []Val, fnv Val, pos
 	}
 	if c.IsInvoke() {
 		recv := fnv
+		// a method call on a nil interface panics
+		fr.safety("nil-iface", fr.curCond, "(not (= "+recv.C[0]+" 0))", pos, "method call on a nil interface value")
 		key := ifaceMethodKey(c.Value.Type(), c.Method.Name())
 		if key == "sync.Locker.Lock" || key == "sync.Locker.Unlock" {
 			// the mutex behind the Locker interface is identified by the interface payload
